@@ -42,7 +42,8 @@ HEADER = [
 
 def sid(sc: dict) -> str:
     return (f"{sc['kind']}-{sc['place']}-{sc['use']}-b{sc['nb']}-{'loop' if sc['hasloop'] else 'noloop'}-{sc['other']}"
-            + ("-rebind" if sc.get("rebind") else "") + ("-decor" if sc.get("decor") else ""))
+            + ("-rebind" if sc.get("rebind") else "") + (f"-anim{sc['anim']}" if sc.get("anim") else "") + ("-cont" if sc.get("cont") else "")
+            + ("-decor" if sc.get("decor") else ""))
 
 
 def render(sc: dict) -> dict:
@@ -74,6 +75,15 @@ def render(sc: dict) -> dict:
         pins.update(apins)                       # (a button that is re-bound need not be sampled any more: not in `buttons`)
     if sc["place"] == "before":
         L.append(decl.format(n="dev"))
+    ticks = []
+    if sc.get("anim"):            # looping animations started in the prologue: one injected tick per animation and pass
+        L.append('dev.animate("scroll", 0, "a long line of text that scrolls", speed_ms=50, loop=True)')
+        ticks.append("tick0")
+        if sc["anim"] > 1:
+            L.append('dev.animate("blink", 1, "blink", speed_ms=80, loop=True)')
+            ticks.append("tick1")
+    if sc.get("cont"):
+        L.append("npass = 0")
     L.append('mon.write("pre")')
     if sc["use"] == "setup":
         L.append(op.format(n="dev"))
@@ -83,6 +93,8 @@ def render(sc: dict) -> dict:
         if sc["place"] == "looptop":
             L.append("    " + decl.format(n="dev"))
         L.append('    mon.write("body")')
+        if sc.get("cont"):
+            L += ["    npass += 1", "    if npass % 2 == 0:", "        continue"]
         if sc["use"] == "loop":
             L.append("    " + op.format(n="dev"))
         elif sc["use"] == "helper":
@@ -96,7 +108,7 @@ def render(sc: dict) -> dict:
     inputs = "".join(f"d {p} 0 1 1 0\n" for p in buttons) + "p 13 580 580 580 580\np 37 580 580 580 580\nx 70\n"
     if sc.get("decor"):
         L = decorate(L)
-    return {"src": "\n".join(L) + "\n", "pins": pins, "buttons": buttons, "motors": motors, "inputs": inputs}
+    return {"src": "\n".join(L) + "\n", "pins": pins, "buttons": buttons, "motors": motors, "inputs": inputs, "ticks": ticks}
 
 
 def decorate(lines: list) -> list:
@@ -117,13 +129,21 @@ def decorate(lines: list) -> list:
 MODES = {0: "in", 1: "out", 2: "inpu"}
 
 
-def project(raw: list, buttons: list, motors: list) -> list:
+def project(raw: list, buttons: list, motors: list, ticks=()) -> list:
+    """ticks: the scenario's animations.  Each tick reads the clock exactly once while its animation is active (nothing else in
+    such a scenario does), so the k-th clock read of a pass is the tick of animation k: it is projected to a sample of the
+    housekeeping item `tick<k>`, which the monitor holds to the same rule as a button (once per pass, before user statements)."""
     out = []
+    nms = 0
     mstate = {tuple(m): [None, None, None] for m in motors}
     for e in raw:
         t = e.get("e")
         if t == "phase":
+            nms = 0
             out.append({"e": "phase", "k": 0 if e["v"] == "setup" else (e["k"] if e["v"] == "loop" else e["k"] + 1)})
+        elif t == "ms" and ticks:
+            out.append({"e": "poll", "b": ticks[nms % len(ticks)]})
+            nms += 1
         elif t == "pm":
             out.append({"e": "pm", "p": e["p"], "m": MODES.get(e["m"], "in")})
         elif t in ("dw", "aw", "tone", "notone"):
@@ -156,11 +176,13 @@ def project(raw: list, buttons: list, motors: list) -> list:
 
 def run_scenario(sc: dict, passes: int = 3) -> dict:
     r = render(sc)
-    res = fw.run_script({"src": r["src"], "passes": passes if sc["hasloop"] else 0, "inputs": r["inputs"]})
+    # `again`: the sketch that runs is the one emitted by a process that has transpiled the same script before (the discipline
+    # holds for every emission, not only for the first one of a process)
+    res = fw.run_script({"src": r["src"], "passes": (passes + (1 if sc.get("cont") else 0)) if sc["hasloop"] else 0, "inputs": r["inputs"], "again": True})
     out = {"id": sid(sc), "sc": sc, "src": r["src"], "transpile": res["transpile"], "msg": res.get("msg"), "cls": res.get("cls"),
            "compile": res.get("compile"), "stderr": (res.get("stderr") or "")[-500:] if res.get("compile") == "fail" else ""}
     if res["transpile"] == "accept" and res.get("compile") == "ok":
-        out["trace"] = {"id": sid(sc), "pins": [[p, m] for p, m in sorted(r["pins"].items())], "buttons": [str(b) for b in r["buttons"]],
-                        "ev": project(res["events"], r["buttons"], r["motors"])}
+        out["trace"] = {"id": sid(sc), "pins": [[p, m] for p, m in sorted(r["pins"].items())], "buttons": [str(b) for b in r["buttons"]] + list(r["ticks"]),
+                        "ev": project(res["events"], r["buttons"], r["motors"], r["ticks"])}
         out["rc"] = res.get("rc", 0)
     return out
